@@ -176,7 +176,7 @@ func c10NewRig() *c10Rig {
 		b.srv = httptest.NewServer(http.HandlerFunc(b.handle))
 		r.be[id] = b
 	}
-	r.client = &http.Client{Timeout: 10 * time.Second, Transport: &http.Transport{MaxIdleConnsPerHost: 4, IdleConnTimeout: 30 * time.Second}}
+	r.client = &http.Client{Timeout: 60 * time.Second, Transport: &http.Transport{MaxIdleConnsPerHost: 4, IdleConnTimeout: 30 * time.Second}}
 	return r
 }
 
@@ -250,6 +250,8 @@ func (r *c10Run) guarded(what string, fn func()) bool {
 		defer func() { done <- recover() }()
 		fn()
 	}()
+	watchdog := time.NewTimer(120 * time.Second)
+	defer watchdog.Stop()
 	select {
 	case p := <-done:
 		if p != nil {
@@ -257,7 +259,7 @@ func (r *c10Run) guarded(what string, fn func()) bool {
 			return false
 		}
 		return true
-	case <-time.After(20 * time.Second):
+	case <-watchdog.C:
 		r.b.Emit("Hang", "in", what)
 		return false
 	}
@@ -266,7 +268,7 @@ func (r *c10Run) guarded(what string, fn func()) bool {
 func (r *c10Run) dump(ctx context.Context) {
 	quiet := true
 	if r.probe != nil {
-		quiet = r.probe.WaitMerged(r.expected, 5*time.Second)
+		quiet = r.probe.WaitMerged(r.expected, 30*time.Second)
 	}
 	perEp := map[string][][]string{}
 	for _, id := range c10Eps {
@@ -538,7 +540,7 @@ func c10RunScenario(tr *zzverif.Trace, sn int, raw json.RawMessage, rig *c10Rig,
 		panic(err)
 	}
 	client := NewHTTPModelDiscoveryClient(pf, lg, rig.client)
-	svc := NewModelDiscoveryService(client, nil, reg, DiscoveryConfig{Interval: time.Hour, Timeout: 8 * time.Second, ConcurrentWorkers: 2}, lg)
+	svc := NewModelDiscoveryService(client, nil, reg, DiscoveryConfig{Interval: time.Hour, Timeout: 45 * time.Second, ConcurrentWorkers: 2}, lg)
 	run := &c10Run{b: b, reg: reg, svc: svc, rig: rig, unified: unified,
 		eps: map[string]*domain.Endpoint{}, idOf: map[string]string{}}
 	run.probe = registry.VerifC10Instrument(reg)
